@@ -97,6 +97,14 @@ def report(res, r, e, o):
         prop = 2 <= int(parts[1]) <= 32
         res.violation(key, 'computeNetSz(%s) = %s but the translated definition gives %s' % (parts[1], o, e), 'input' if prop else 'correspondence', prop,
                       case=[r], expected=[e], observed=[o])
+    elif verb in ('estimate', 'estimate-check'):
+        a, l = int(parts[1]), int(parts[2])
+        cidr = '%s/%d' % (fmt_ip(a), l)
+        if verb == 'estimate':
+            what = 'computeNetSz(%d) = %s but %s has %s usable host addresses (model enumeration)' % (l, o, cidr, e)
+        else:
+            what = 'computeNetSz(%d) = %s but ipGenerator(%s) sent %s addresses (%s)' % (l, parts[4], cidr, parts[3], e)
+        res.violation('estimate:/%d' % l, what, 'input', True, case=[r], cidr=cidr, expected=[e], observed=[o])
     elif verb in ('cancel', 'cancel-late'):
         a, l, cap, occ = int(parts[1]), int(parts[2]), int(parts[3]), int(parts[4])
         cidr = '%s/%d' % (fmt_ip(a), l)
@@ -105,6 +113,8 @@ def report(res, r, e, o):
         how = 'cancelled after it was waiting on the channel' if verb == 'cancel-late' else ('context cancelled' if parts[6] == '1' else 'context not cancelled')
         recv = 'a receiver' if (verb == 'cancel' and parts[5] == '1') else 'no receiver'
         prop = e == 'returned'   # the property demands a return; code returning where the model waits is a model mismatch
+        if not prop:
+            key += ':unexpected-' + o
         res.violation(key, 'ipGenerator(%s), channel cap %d holding %d, %s, %s: generator goroutine %s (model: %s)' % (cidr, cap, occ, recv, how, o, e),
                       'input' if prop else 'correspondence', prop, case=[r], cidr=cidr, expected=[e], observed=[o])
     else:
@@ -112,6 +122,10 @@ def report(res, r, e, o):
 
 
 def explain(res, name, reason):
+    """a broken estimate obligation is explained by the estimate lines of the correspondence"""
+    if name in ('netsz_table', 'estimate_exact'):
+        have = [v['key'] for v in res.violations if v['key'].startswith('estimate:')] + [k for k, _ in res.known_hits if k.startswith('estimate:')]
+        return have or None
     return None
 
 
